@@ -27,7 +27,7 @@ PROP = dict(
     level_note='Trusted: Coq kernel; the Go driver\'s dump of the Aggregates collection (query ids by their first 7 bytes, reporters by account '
                'index). The snapshot clause is an executable specification evaluated on the real bridge keeper\'s AttestSnapshotDataMap (the bridge '
                'calls the two timestamp getters; that call structure is exercised, not proved). The history theorem is about the model of '
-               'Model/OracleRound.v whose correspondence with the real keeper is C07\'s check; closing_distinct as in C07.',
+               'Model/OracleRound.v whose correspondence with the real keeper is C07\'s check; the side conditions of the history theorem follow from the block structure, strictly increasing block time and report windows >= 1 (C08_history_well_scheduled, using C07\'s round invariant).',
     assumptions=['block time strictly increases from block to block', 'the TRBBridge report window is at least one block (see C07)',
                  'collections iterate in key order'],
     design_ref='5/C08',
